@@ -600,12 +600,14 @@ def job_labels(job, kind, history=False):
     d = E.dag
     base = PDA_TEXT if kind == 'pda' else TM_TEXT
     parse = parse_pda if kind == 'pda' else parse_tm
-    badlabels = ['a', 'a,', 'a,x', 'a,xyz', ',xy', 'axy'] if kind == 'pda' else ['a', 'ab', 'ab,', 'b,R', 'abc,R']
+    # (the last one of each list has the right length but a letter / digit where the comma belongs)
+    badlabels = ['a', 'a,', 'a,x', 'a,xyz', ',xy', 'axy', 'a1x_'] if kind == 'pda' else ['a', 'ab', 'ab,', 'b,R', 'abc,R', 'abRR']
     if history:
         # call history: another parser of the family has seen these very strings before as LEGAL multi-character input
         # symbols of a DFA (a verdict remembered per label, not per format, would let them pass here)
         from gambatools.dfa_algorithms import parse_dfa
-        legal = [l for l in badlabels if l.isalnum()]
+        import re as _re
+        legal = [l for l in badlabels if _re.fullmatch(r'\w+', l)]
         prior = 'initial z\nfinal z\n' + ''.join('z z %s\n' % l for l in legal)
         job.prior_text = prior
         try:
@@ -627,10 +629,10 @@ def job_labels(job, kind, history=False):
     multi = E.mk([(g, base[3][:-1] + ' ' + l + '\n') for l, g in c.alt_map(lab).items()])
     pieces = [(TRUE, s) for s in base[:3]] + [(wm[0], line_alts), (wm[1] ^ 1, base[3]), (wm[1], multi), (TRUE, base[4]), (wm[2], line_alts)]
     rope = L.GStr(pieces)
-    rp = ('label_text', {'kind': kind, 'text': lambda mv: rope_text(rope, mv), 'expect': 'error', 'prior_dfa_text': getattr(job, 'prior_text', None)})
+    rp = ('label_text', {'machine': kind, 'text': lambda mv: rope_text(rope, mv), 'expect': 'error', 'prior_dfa_text': getattr(job, 'prior_text', None)})
     res_b, failed_b, kinds = attempt(parse, rope)
     good = L.GStr([(TRUE, s) for s in base])
-    rpg = ('label_text', {'kind': kind, 'text': ''.join(base), 'expect': 'same'})
+    rpg = ('label_text', {'machine': kind, 'text': ''.join(base), 'expect': 'same'})
     res, failed, kinds = attempt(parse, good)
     job.lifted()
     job.oblige('%s description with a label of the wrong length is rejected' % kind.upper(), failed_b() ^ 1, replay=rp)
@@ -729,17 +731,17 @@ def _replay_nfa_text(rp):
 def _replay_label_text(rp):
     from gambatools.pda_algorithms import parse_pda
     from gambatools.tm_algorithms import parse_tm
-    parse = parse_pda if rp['kind'] == 'pda' else parse_tm
+    parse = parse_pda if rp['machine'] == 'pda' else parse_tm
     if rp.get('prior_dfa_text'):
         from gambatools.dfa_algorithms import parse_dfa
         try:
             parse_dfa(rp['prior_dfa_text'])
         except Exception:
             pass
-    r, obj = _replay_text(parse, rp, lambda o: nat.summary_of(rp['kind'], o))
+    r, obj = _replay_text(parse, rp, lambda o: nat.summary_of(rp['machine'], o))
     if r is not None:
         return r, obj
-    got, exp = nat.summary_of(rp['kind'], obj), nat.expected_of_text(rp['kind'])
+    got, exp = nat.summary_of(rp['machine'], obj), nat.expected_of_text(rp['machine'])
     return got != exp, {'returned': got, 'expected': exp}
 
 
